@@ -323,6 +323,7 @@ class Interp(object):
         a = st.mem[aid]
         for (r, s, v) in self.const_cells(st, aj):
             a.cells[r] = (s, v)
+        a.maxsz = 8
         return aid
 
     def prov_value(self, st, target, addend):
@@ -411,6 +412,7 @@ class Interp(object):
             return 0
         # compose from pieces
         tmp = Alloc(0, size, 1, "tmp", 0, None)
+        tmp.maxsz = 16
         for (r, s, v) in blob:
             tmp.cells[r] = (s, v)
         return st._gather(tmp, 0, size)
